@@ -272,8 +272,8 @@ CHECKS = {
               "environment and states/tasks are unchanged. Every case is non-trivial; every crash and reconnect point is also run as a fixed case."),
         assumptions=["the simulated master answers RECONCILE implicitly with one REASON_RECONCILIATION update per non-terminal task, as Mesos does",
                      "a crash is SIGKILL of the core process; the simulated master and Consul keep their state"],
-        quick=[R("^(TestFixed|TestCanary.*)$", 1, 1, 900), R("^TestCrashPoints$", 4, 8, 900, shrinktime="60s")],
-        thorough=[R("^(TestFixed|TestCanary.*)$", 1, 1, 900), R("^TestCrashPoints$", 40, 15, 3400, shrinktime="120s")],
+        quick=[R("^(TestFixed|TestCanary.*)$", 1, 1, 900), R("^TestCrashPoints$", 4, 8, 900, shrinktime="60s"), R("^TestFirstRegistrationRepeated$", 1, 3, 600)],
+        thorough=[R("^(TestFixed|TestCanary.*)$", 1, 1, 900), R("^TestCrashPoints$", 40, 15, 3400, shrinktime="120s"), R("^TestFirstRegistrationRepeated$", 1, 4, 3400)],
     ),
     "C08": dict(
         pkg="./props/c08", bins=["./cmd/simcore"], level="exploration",
